@@ -37,3 +37,160 @@ contract("usim._primitives.timing.delay",
          on_signal=[], on_close=[],
          on_exit=[DEAD_NEW],
          props=["C14", "C20"])
+
+# ---------------------------------------------------------------- C01: time conditions
+model("After", module="usim._primitives.timing", fields={"date": REAL, "_scheduled": OPT(BOOL)}, final=["date"],
+      ghost={"trigger_due": BOOL})       # ghost: a trigger activation for `date` is queued and has not run yet
+model("Before", module="usim._primitives.timing", fields={"date": REAL}, final=["date"])
+model("Moment", module="usim._primitives.timing", fields={"date": REAL, "_transition": REF("After")}, final=["date", "_transition"])
+model("Eternity", module="usim._primitives.timing", fields={})
+model("Instant", module="usim._primitives.timing", fields={})
+model("Delay", module="usim._primitives.timing", fields={"duration": REAL}, final=["duration"])
+
+COND = dict(requires=["loop.activity is me"], on_signal=["loop.activity is me"], on_close=[], on_exit=[DEAD_NEW])
+
+contract("usim._primitives.timing.Instant.__await__",
+         params={"self": REF("Instant")}, returns=BOOL, inv_scope=NS, suspends=(1, None),
+         ensures=["result == True", "loop.time == old(loop.time)", "loop.activity is me"], props=["C01", "C20"], **COND)
+
+contract("usim._primitives.timing.Eternity.__await__",
+         params={"self": REF("Eternity")}, returns=BOOL, inv_scope=NS, suspends=(1, None),
+         # never completes: there is no normal-completion path at all
+         ensures=["False"], props=["C01", "C20"], **COND)
+
+contract("usim._primitives.timing.Before.__await__",
+         params={"self": REF("Before")}, returns=BOOL, inv_scope=NS, suspends=(1, None),
+         # completes only if the date has not been reached, and then within the same time step
+         ensures=["result == True", "old(loop.time) < self.date", "loop.time == old(loop.time)", "loop.activity is me"],
+         props=["C01", "C20"], **COND)
+
+# ---- After: `time >= date`
+invariant("After", "parked_means_trigger_queued", "implies(len(self._waiting) > 0, self.trigger_due)", props=["C01", "C03"])
+invariant("After", "trigger_is_in_the_future", "implies(self.trigger_due, loop.time <= self.date and self._scheduled == True)",
+          props=["C01"])
+invariant("After", "scheduled_before_date_means_queued",
+          "implies(self._scheduled == True and loop.time < self.date, self.trigger_due)", props=["C01"])
+invariant("Interrupt", "after_wakeup_time",
+          "implies(self.sub is not None and isinstance(self.sub, After) and self.scheduled, "
+          "        self.due >= cast(self.sub, After).date and (self.immediate or self.due == cast(self.sub, After).date))", props=["C01"])
+
+# K11 (kernel, K3): a queued trigger for `date` runs before the clock passes `date`, and only it clears the flag
+rely("After", [], "True",
+     ensures="implies(old(self.trigger_due), (self.trigger_due and loop.time <= self.date) or "
+             "                              (not self.trigger_due and loop.time >= self.date)) and "
+             "implies(not old(self.trigger_due) and old(loop.time) >= self.date, not self.trigger_due or True)",
+     why="K3/K-mono: all activations queued for time t run before the clock moves past t; `_async_trigger` alone ends trigger_due")
+
+contract("usim._primitives.timing.After.__init__",
+         params={"self": REF("After"), "date": REAL},
+         requires=["forall(Interrupt, lambda i: i.sub is not self)"],
+         ensures=["self.date == date", "self._scheduled is None", "len(self._waiting) == 0", "not self.trigger_due"],
+         ghost_exit=["self.trigger_due = False"],
+         modifies=["After.date@self", "After._scheduled@self", "After.trigger_due@self", "Notification._waiting@self"],
+         props=["C01"])
+
+contract("usim._primitives.timing.After.__bool__",
+         params={"self": REF("After")}, returns=BOOL, pure=True, inline=True, no_invariants=True,
+         ensures=["result == (loop.time >= self.date)"], modifies=[], props=["C01", "C08"])
+
+contract("usim._primitives.timing.After._ensure_trigger",
+         params={"self": REF("After")},
+         requires=["loop.time < self.date"],
+         ensures=["self.trigger_due", "self._scheduled == True", "loop.time == old(loop.time)",
+                  "self._waiting == old(self._waiting)", "loop._pending == old(loop._pending)"],
+         ghost_exit=["if not old(self._scheduled):\n    self.trigger_due = True"],
+         modifies=["After._scheduled@self", "After.trigger_due@self", "WaitQueue.qlen@loop._activations", "WaitQueue.qitems@loop._activations"],
+         props=["C01", "C03"])
+
+contract("usim._primitives.timing.After._async_trigger",
+         params={"self": REF("After")},
+         # K3 delivery facts for the signal-less trigger activation (queued with key `date`)
+         assume_entry=["loop.time == self.date", "self.trigger_due"],
+         ghost_entry=["self.trigger_due = False"],
+         suspends=(0, 0),
+         ensures=["len(self._waiting) == 0", "not self.trigger_due"],
+         modifies=["After.trigger_due@self", "Notification._waiting@self", "Loop._pending@loop",
+                   "Interrupt.scheduled", "Interrupt.target", "Interrupt.due"],
+         props=["C01"])
+
+contract("usim._primitives.timing.After.__subscribe__",
+         params={"self": REF("After"), "waiter": ANY, "interrupt": REF("Interrupt")},
+         requires=["interrupt.sub is None", "not interrupt.scheduled", "not interrupt._revoked", "waiter is not None"],
+         ensures=["interrupt.sub is self and interrupt.target is waiter",
+                  "interrupt.immediate == (old(loop.time) >= self.date)", "interrupt._revoked == old(interrupt._revoked)",
+                  "implies(old(loop.time) >= self.date, interrupt.scheduled and interrupt.due == loop.time)",
+                  "implies(old(loop.time) < self.date, not interrupt.scheduled and self.trigger_due "
+                  "        and self._waiting == old(self._waiting) + [(waiter, interrupt)])"],
+         modifies=["After._scheduled@self", "After.trigger_due@self", "WaitQueue.qlen@loop._activations", "WaitQueue.qitems@loop._activations",
+                   "Notification._waiting@self", "Loop._pending@loop", "Interrupt.sub@interrupt", "Interrupt.target@interrupt",
+                   "Interrupt.pos@interrupt", "Interrupt.scheduled@interrupt", "Interrupt.due@interrupt", "Interrupt.immediate@interrupt"],
+         props=["C01", "C03", "C07"])
+
+contract("usim._primitives.timing.After.__await__",
+         params={"self": REF("After")}, returns=BOOL, suspends=(1, None),
+         # resumes exactly at `date`, or in the same time step when the date has been reached already
+         ensures=["result == True", "loop.time == ite(old(loop.time) >= self.date, old(loop.time), self.date)", "loop.activity is me"],
+         asserts={1: "internal"},
+         props=["C01", "C20"], **COND)
+
+# ---- Moment: `time == date`
+invariant("Moment", "transition", "self._transition is not None and self._transition.date == self.date", props=["C01"])
+
+contract("usim._primitives.timing.Moment.__await__",
+         params={"self": REF("Moment")}, returns=BOOL, suspends=(1, None),
+         # completes only if the date is not in the past, exactly at the date
+         ensures=["result == True", "old(loop.time) <= self.date", "loop.time == self.date", "loop.activity is me"],
+         asserts={1: "internal"},
+         props=["C01", "C20"], **COND)
+
+contract("usim._primitives.timing.Moment.__subscribe__",
+         params={"self": REF("Moment"), "waiter": ANY, "interrupt": REF("Interrupt")},
+         requires=["interrupt.sub is None", "not interrupt.scheduled", "not interrupt._revoked", "waiter is not None"],
+         ensures=[
+             # fires at the date (now, if the date is now) and never once the date has passed
+             "implies(old(loop.time) == self.date, interrupt.scheduled and interrupt.due == loop.time)",
+             "implies(old(loop.time) < self.date, not interrupt.scheduled and interrupt.sub is self._transition)",
+             "implies(old(loop.time) > self.date, not interrupt.scheduled and interrupt.sub is None "
+             "        and self._transition._waiting == old(self._transition._waiting) and loop._pending == old(loop._pending))"],
+         modifies=["After._scheduled@self._transition", "After.trigger_due@self._transition",
+                   "WaitQueue.qlen@loop._activations", "WaitQueue.qitems@loop._activations",
+                   "Notification._waiting@self._transition", "Loop._pending@loop", "Interrupt.sub@interrupt", "Interrupt.target@interrupt",
+                   "Interrupt.pos@interrupt", "Interrupt.scheduled@interrupt", "Interrupt.due@interrupt", "Interrupt.immediate@interrupt"],
+         props=["C01", "C03", "C07"])
+
+# ---- Delay: `time + duration`
+contract("usim._primitives.timing.Delay.__init__",
+         params={"self": REF("Delay"), "duration": REAL},
+         requires=["duration > 0", "forall(Interrupt, lambda i: i.sub is not self)"], asserts={1: "usage"},
+         ensures=["self.duration == duration", "len(self._waiting) == 0"],
+         modifies=["Delay.duration@self", "Notification._waiting@self"], props=["C01"])
+
+invariant("Delay", "positive", "self.duration > 0 and len(self._waiting) == 0 and self.lock is None and self.queue is None", props=["C01"])
+
+contract("usim._primitives.timing.Delay.__subscribe__",
+         params={"self": REF("Delay"), "waiter": ANY, "interrupt": REF("Interrupt")},
+         requires=["interrupt.sub is None", "not interrupt.scheduled", "not interrupt._revoked", "waiter is not None"],
+         ensures=["interrupt.scheduled and interrupt.due == old(loop.time) + self.duration",
+                  "interrupt.sub is self and interrupt.target is waiter", "interrupt._revoked == old(interrupt._revoked)",
+                  "loop._pending == old(loop._pending)", "len(self._waiting) == 0"],
+         ghost_exit=["interrupt.sub = self\ninterrupt.target = waiter"],
+         modifies=["WaitQueue.qlen@loop._activations", "WaitQueue.qitems@loop._activations",
+                   "Interrupt.sub@interrupt", "Interrupt.target@interrupt", "Interrupt.scheduled@interrupt", "Interrupt.due@interrupt"],
+         props=["C01", "C07"])
+
+contract("usim._primitives.timing.Time.__add__",
+         params={"self": "singleton:time", "other": REAL}, returns=REF("Notification"),
+         requires=["other >= 0"], asserts={1: "usage"},
+         ensures=["implies(other == 0, isinstance(result, Instant))",
+                  "implies(other > 0, isinstance(result, Delay) and cast(result, Delay).duration == other)"],
+         modifies=[], check_frame=False, props=["C01"])
+
+contract("usim._primitives.timing.Moment.__unsubscribe__",
+         params={"self": REF("Moment"), "waiter": ANY, "interrupt": REF("Interrupt")},
+         requires=["(interrupt.sub is None and not interrupt.scheduled) or "
+                   "(interrupt.sub is self._transition and interrupt.target is waiter)"],
+         # dead afterwards, whatever happened to the subscription in between
+         ensures=["interrupt.sub is None", "interrupt._revoked or not interrupt.scheduled",
+                  "forall(self._transition._waiting, lambda w: w[1] is not interrupt)"],
+         modifies=["Notification._waiting@self._transition", "Interrupt.sub@interrupt", "Interrupt._revoked@interrupt", "Interrupt.pos"],
+         props=["C01", "C03", "C07"])
